@@ -5,6 +5,7 @@ package act
 import (
 	"fmt"
 	"os"
+	"os/exec"
 	"path/filepath"
 	"sort"
 	"strconv"
@@ -41,6 +42,7 @@ func Main(args []string) int {
 	fail, sleepMs, sleepAfterMs := 0, 0, 0
 	dangle := false
 	sleepIfMs := 20000
+	bgHold := 0
 	for i := 1; i < len(args); i++ {
 		next := func() string {
 			i++
@@ -62,6 +64,8 @@ func Main(args []string) int {
 			sleepAfterMs, _ = strconv.Atoi(next())
 		case "--sleepifms":
 			sleepIfMs, _ = strconv.Atoi(next())
+		case "--bghold":
+			bgHold, _ = strconv.Atoi(next())
 		case "--sleepif":
 			sleepIf = next()
 		case "--omit":
@@ -103,6 +107,12 @@ func Main(args []string) int {
 	}
 	if sleepMs > 0 {
 		time.Sleep(time.Duration(sleepMs) * time.Millisecond)
+	}
+	if sleepIf != "" && bgHold > 0 && exists(filepath.Join(root, sleepIf)) {
+		// a background child that inherits stdout / stderr and outlives this command
+		bg := exec.Command("sleep", strconv.Itoa(bgHold))
+		bg.Stdout, bg.Stderr = os.Stdout, os.Stderr
+		_ = bg.Start()
 	}
 	if sleepIf != "" && exists(filepath.Join(root, sleepIf)) {
 		time.Sleep(time.Duration(sleepIfMs) * time.Millisecond)
